@@ -630,6 +630,14 @@ func closedObligation(w *World, cf *ContractFile, c *Clause) *Obligation {
 			v, _, _ := e.evalPure(fn, nil, nil, nil, nil, st, st, 0)
 			if pass > 0 && !e.newNames {
 				o.Text = e.q.Snapshot(len(e.q.asserts), tNot(v.(T)), nil)
+				if decls, body, ok := skolemizeOuterForall(v.(T)); ok {
+					// the negation of an outer universal quantifier is an existential: fresh constants instead of
+					// bound variables make an arithmetic lemma a quantifier-free query
+					neg := "(assert " + tNot(v.(T)) + ")\n(check-sat)\n"
+					if strings.HasSuffix(o.Text, neg) {
+						o.Text = strings.TrimSuffix(o.Text, neg) + decls + "(assert " + tNot(body) + ")\n(check-sat)\n"
+					}
+				}
 				o.Quantified = strings.Contains(o.Text, "(forall ") || strings.Contains(o.Text, "(exists ")
 				break
 			}
@@ -638,6 +646,85 @@ func closedObligation(w *World, cf *ContractFile, c *Clause) *Obligation {
 	return o
 }
 
+
+// skolemizeOuterForall splits a term of the exact form (forall ((x S) ...) BODY) or
+// (forall ((x S) ...) (! BODY :pattern ...)) into declarations of its bound variables as constants and BODY.
+func skolemizeOuterForall(t string) (decls string, body string, ok bool) {
+	const pre = "(forall ("
+	if !strings.HasPrefix(t, pre) || !strings.HasSuffix(t, ")") {
+		return "", "", false
+	}
+	sexprEnd := func(s string, i int) int { // index just after the s-expression starting at s[i]
+		if i >= len(s) {
+			return -1
+		}
+		if s[i] != '(' {
+			j := i
+			if s[j] == '|' {
+				k := strings.IndexByte(s[j+1:], '|')
+				if k < 0 {
+					return -1
+				}
+				return j + 1 + k + 1
+			}
+			for j < len(s) && s[j] != ' ' && s[j] != ')' {
+				j++
+			}
+			return j
+		}
+		depth := 0
+		for j := i; j < len(s); j++ {
+			switch s[j] {
+			case '|':
+				k := strings.IndexByte(s[j+1:], '|')
+				if k < 0 {
+					return -1
+				}
+				j += k + 1
+			case '(':
+				depth++
+			case ')':
+				depth--
+				if depth == 0 {
+					return j + 1
+				}
+			}
+		}
+		return -1
+	}
+	bl := len(pre) - 1 // the binder list starts here
+	be := sexprEnd(t, bl)
+	if be < 0 || be+1 >= len(t) || t[be] != ' ' {
+		return "", "", false
+	}
+	var sb strings.Builder
+	for i := bl + 1; i < be-1; {
+		if t[i] == ' ' {
+			i++
+			continue
+		}
+		j := sexprEnd(t, i)
+		if j < 0 || t[i] != '(' {
+			return "", "", false
+		}
+		sb.WriteString("(declare-const " + t[i+1:j-1] + ")\n")
+		i = j
+	}
+	bs := be + 1
+	bend := sexprEnd(t, bs)
+	if bend != len(t)-1 {
+		return "", "", false
+	}
+	body = t[bs:bend]
+	if strings.HasPrefix(body, "(! ") {
+		ie := sexprEnd(body, 3)
+		if ie < 0 {
+			return "", "", false
+		}
+		body = body[3:ie]
+	}
+	return sb.String(), body, true
+}
 
 // evalAllFacts decides every closed `fact` clause by running the real code: for every package with such
 // clauses a test is injected through a build overlay (nothing is written to /repo) that calls the
